@@ -5,6 +5,7 @@ CONSTANTS
   PerRound = 1
   NotifyMode = "token"
   TempApps = {1, 2}
+  TwoPhaseApps = {}
   ExitMode = "recheck"
 INVARIANTS FIFO LockOK
 CONSTRAINT Mark
